@@ -7,12 +7,13 @@ spec/NamespacesGen.tla    GSpec: contexts x every start tag, one complete docume
 spec/NamespacesTrace.tla  SAX2 event streams recorded from the implementation, validated event by event
 harness/ns_harness.cpp    renders the tokens (4 layouts), parses with SAX2 (namespace-prefixes off/on), SAX1, DOM x IG/WF/SG/DG scanners, compares
 
-Mutants (mutants/C06/*.diff; demonstrated with VERIF_C06_ONLY=GSpecFlat,BigSpec because of machine load, see mutants/C06/RESULTS.txt):
+Mutants (mutants/C06/*.diff), all DETECTED (mutants/C06/RESULTS.txt has the measured output):
   m1-outermost-first   ElemStack::mapPrefixToURI searches the rows outermost-first
-  m2-endprefix-empty   SAX2XMLReaderImpl: one endPrefixMapping too few for empty elements
+  m2-endprefix-empty   SAX2XMLReaderImpl: one endPrefixMapping too few for empty elements (visible through WF/DG: they pass isEmpty=true)
   m3-lookup-undecl     DOMNodeImpl::lookupNamespaceURI ignores xmlns=""
-  m4-expandmap         ElemStack::expandMap loses the last entry when the map grows
+  m4-expandmap         ElemStack::expandMap loses the last entry when the map grows (needs fresh parser objects: rows keep their capacity)
   m5-collision-qname   IGXMLScanner attribute collision check compares the prefix instead of the URI
+  seeded C06-a1 (lookupPrefix re-check from the declaring element) and C06-a2 (row searched newest-first; DTD-defaulted xmlns:p) are detected too.
 """
 import json
 import os
@@ -32,28 +33,29 @@ META = dict(
          "declarations imply; every document of that enumeration (and families with 15-40 prefixes on one element and ~100 attributes) is "
          "parsed by all four public APIs with every scanner and the observed events / DOM nodes / lookups / error reports are compared.",
     note="Trusted: TLC, the table-driven renderer, the public handlers/getters as projection. Not modelled: element names with prefix xmlns, "
-         "entity/default attributes from DTDs, schema-driven attribute defaults. Attribute and prefix-mapping order within one tag is not "
+         "schema-driven attribute defaults; DTD-defaulted xmlns attributes are modelled and bound with the IGXMLScanner only. Attribute and prefix-mapping order within one tag is not "
          "compared (SAX2 leaves it open). Known findings are listed in known_findings.d/C06.json.",
 )
 
 CONSTS = {
-    "quick": dict(checks=["Namespaces.quick.cfg", "Namespaces.deep.cfg", "Namespaces.res.cfg"],
+    "quick": dict(checks=["Namespaces.quick.cfg", "Namespaces.deep.cfg", "Namespaces.res.cfg", "Namespaces.dtd.cfg"],
                   gens=[("GSpec", "NamespacesGen.quick.cfg"), ("GSpecFlat", "NamespacesGen.flat.cfg"), ("GSpec11", "NamespacesGen.v11.cfg"),
                         ("GSpecReserved", "NamespacesGen.res.cfg"), ("BigSpec", "NamespacesGen.big.cfg")],
                   walks=160, vtraces=3, vdocs=150, velems=30),
-    "thorough": dict(checks=["Namespaces.thorough.cfg", "Namespaces.res.cfg"],
+    "thorough": dict(checks=["Namespaces.thorough.cfg", "Namespaces.res.cfg", "Namespaces.dtd.cfg"],
                      gens=[("GSpec", "NamespacesGen.thorough.cfg"), ("GSpec11", "NamespacesGen.v11t.cfg"), ("GSpecReserved", "NamespacesGen.res.cfg"),
                            ("GSpecFlat", "NamespacesGen.flat.cfg"), ("BigSpec", "NamespacesGen.bigt.cfg")],
                      walks=4000, vtraces=12, vdocs=600, velems=60),
 }
 SCANNERS = "IG,WF,SG,DG"
+DTDGEN = ("GSpecDtd", "NamespacesGen.dtd.cfg")     # documents whose DTD gives every element defaulted xmlns / xmlns:p attributes
 # development aid (used for the mutant demonstrations on an oversubscribed machine): VERIF_C06_ONLY=GSpecFlat,BigSpec runs only
 # those generator configurations (no exhaustive specification check, no W, no V); a normal run leaves it unset
 ONLY = [x for x in os.environ.get("VERIF_C06_ONLY", "").split(",") if x]
 
 
-def _pipe(out, module, cfg, exe, simulate=None, depth=None, workers=8, timeout=9000, nproc=8):
-    p = C.Piper([exe, "t", SCANNERS], timeout=timeout, nproc=nproc)
+def _pipe(out, module, cfg, exe, simulate=None, depth=None, workers=8, timeout=9000, nproc=8, scanners=SCANNERS):
+    p = C.Piper([exe, "t", scanners], timeout=timeout, nproc=nproc)
     res = C.tlc(module, cfg, workers=workers, on_chunk=p.feed_chunk, simulate=simulate, depth=depth, timeout=timeout, heap="8g")
     p.close()
     if not res.ok:
@@ -114,10 +116,12 @@ def run(out, tier):
     mm = {}
     samples = []
     errs = {}
-    for name, cfg in k["gens"]:
+    for name, cfg in k["gens"] + [DTDGEN]:
         if ONLY and name not in ONLY:
             continue
-        rg, cnt, p = _pipe(out, "NamespacesGen", cfg, exe)
+        # WFXMLScanner and SGXMLScanner do not read DTDs; DGXMLScanner does not feed defaulted xmlns attributes into its map
+        # (reported to the lead): the DTD family is bound to the default scanner only
+        rg, cnt, p = _pipe(out, "NamespacesGen", cfg, exe, scanners="IG" if name == "GSpecDtd" else SCANNERS)
         cov["T"][name] = dict(cfg=cfg, documents=cnt.get("cases", 0), error_documents=cnt.get("cases_error", 0), parses=cnt.get("parses", 0),
                               dom_nodes_with_lookups=cnt.get("lookup_nodes", 0), differences=cnt.get("mismatches", 0), generator=rg.summary())
         tcases += cnt.get("cases", 0)
@@ -182,7 +186,7 @@ def run(out, tier):
     cov["dom_nodes_with_lookups_compared"] = tlook
     cov["rule"] = ("T: one document per (context, start tag) of the generator configurations %s - distinct by construction (TLC emits every "
                    "state of the generator once); each is non-trivial: it is parsed by 4 APIs x 4 scanners in 4 layouts and events, error "
-                   "report and DOM lookups are compared with the specification" % ", ".join(c for _, c in k["gens"]))
+                   "report and DOM lookups are compared with the specification" % ", ".join(c for _, c in k["gens"] + [DTDGEN]))
     out.assumptions += ["constants of spec/%s and spec/%s" % (", ".join(k["checks"]), ", ".join(c for _, c in k["gens"])),
                         "the renderer writes what the tokens say (table-driven; four attribute/leaf layouts)",
                         "order of prefix-mapping events within one tag and of attributes is not compared",
